@@ -3272,6 +3272,33 @@ class C03(Oracle):
                         out.append(V('history/equal-answers-hash-differently', f'{where} ({tag})'))
             except TypeError:
                 pass
+            # a look-alike in between: a state that compares equal to this one (equality does not look into
+            # boxes) but is another state; its answer is the answer for *it*, whatever was asked before,
+            # also when it is this very object whose box was refilled in place
+            toks = c['state'].split()
+            h_, w_ = int(toks[0]), int(toks[1])
+            cells = toks[2 : 2 + h_ * w_]
+            if not out and any(t.startswith('X') for t in cells):
+                from harness.codec import dec_obj
+
+                swapped = [('XK2' if t != 'XK2' else 'XF') if t.startswith('X') else t for t in cells]
+                look = ' '.join(toks[:2] + swapped + toks[2 + h_ * w_ :])
+                for tag, t_ in (('an equal-looking state with other box contents', state_from_str(look)), ('the same object after its boxes were refilled in place', s)):
+                    if t_ is s:
+                        for pp in s.grid.area.positions():
+                            if enc_obj_of(s.grid[pp]).startswith('X'):
+                                s.grid[pp].content = dec_obj('K2' if enc_obj_of(s.grid[pp]) != 'XK2' else 'F')
+                    ref = state_from_str(enc_state(t_))
+                    try:
+                        rr_ = ScriptRng(c['answers'])
+                        for i in c['atoms']:
+                            trf.transition_function_registry[TRANS_NAMES[i]](ref, a, rng=rr_)
+                        got = trf.transition_with_copy(chain, t_, a, rng=ScriptRng(c['answers']))
+                    except Exception:
+                        break
+                    if enc_state(got) != enc_state(ref):
+                        out.append(V('history/answer-is-for-a-state-asked-about-earlier', f'{where}, then {tag}: {enc_state(t_)} -> {enc_state(got)} instead of {enc_state(ref)}'))
+                        break
             return out
         if c['kind'] == 'heapobs':
             s = state_from_str(c['state'])
